@@ -154,6 +154,8 @@ def size_fn(ctx, report):
             if tgt is not None and tgt[1] == [] and tgt[2] is False:
                 buf = tgt[0]
             if buf is not None:
+                import shapes as _sh
+                buf = _sh.root_local(an, buf)
                 d = an.unique_def(buf)
                 muts = buffer_fill(an, buf)
                 dn = d[2] if d else None
@@ -176,7 +178,62 @@ def size_fn(ctx, report):
                 why = "len() is not taken of a local buffer"
         else:
             why = "return value is not buffer.len(): %r" % (an.call_expr(node, bb) if hasattr(node, "callee") else an.rvalue_expr(node.rv, bb, idx))
+    if not ok and len(rets) == 1:
+        # idiom 2: Header{list: true, payload_length: len(P)}.length() + len(P), P filled only by append_rlp_content(self, _, true)
+        ok2, why2 = size_by_header_arithmetic(ctx, f, an, rets[0])
+        if ok2:
+            ok = True
+        elif why2:
+            why = why + " / " + why2
     report.check("SIZE", "size", ok, "size() == len(fresh buffer filled only by self.encode())", "size() is not exactly the length of the record's encoding: " + why, fn=f.path, sp=f.span, config=cfg)
+
+
+def size_by_header_arithmetic(ctx, f, an, ret):
+    import shapes
+    from kernel import unmut
+    bb, idx, node = ret
+    rv = getattr(node, "rv", None)
+    if rv is None:
+        return False, None
+    e = strip(an.rvalue_expr(rv, bb, idx))
+    atoms, cst = guards.linear(e, const_int, strip)
+    if cst != 0 or len(atoms) != 2:
+        return False, "not header.length() + payload.len()"
+    ln = [a for a in map(strip, atoms) if a.k == "call" and a.a[0].name == "len"]
+    hl = [a for a in map(strip, atoms) if a.k == "call" and a.a[0].name == "length" and "Header" in a.a[0].fn]
+    if len(ln) != 1 or len(hl) != 1:
+        return False, "not header.length() + payload.len()"
+    hdr = unmut(hl[0].a[1][0])
+    if not (hdr.k == "agg" and hdr.a[0].endswith("Header::Header")):
+        return False, "header is not built in place"
+    lst, pl = strip(hdr.a[1]["list"]), strip(hdr.a[1]["payload_length"])
+    if not (lst.k == "const" and lst.a[0] == 1 and pl.k == "call" and pl.a[0].name == "len" and repr(unmut(pl.a[1][0])) == repr(unmut(ln[0].a[1][0]))):
+        return False, "header is not the list header of that payload"
+    # the payload buffer
+    buf = None
+    for b, t in f.calls():
+        if b.idx == ln[0].site and t.callee and t.callee.name == "len":
+            tgt = an.operand_target(t.args[0])
+            if tgt is not None and tgt[2] is False and tgt[1] == []:
+                buf = tgt[0]
+    if buf is None:
+        return False, "payload is not a local buffer"
+    buf = shapes.root_local(an, buf)
+    muts = shapes.mutations(an, buf)
+    d = shapes.def_expr(an, buf)
+    fresh = d is not None and d.k == "call" and d.a[0].name in ("new", "with_capacity")
+    if not (fresh and len(muts) == 1 and muts[0]["kind"] == "mutcall"):
+        return False, "payload buffer is not fresh and filled once"
+    t = muts[0]["term"]
+    if not (t.callee and t.callee.target() == "Enr::<K>::append_rlp_content" and len(t.args) == 3):
+        return False, "payload is not written by append_rlp_content"
+    a0 = strip(an.operand_expr(t.args[0], muts[0]["bb"], muts[0]["idx"]))
+    a2 = strip(an.operand_expr(t.args[2], muts[0]["bb"], muts[0]["idx"]))
+    if not (a0.k == "param" and a0.a[0] == 1 and a2.k == "const" and a2.a[0] == 1):
+        return False, "append_rlp_content(self, _, true) expected"
+    if not all(an.cfg.dominates(muts[0]["bb"], x) for x in (ln[0].site, pl.site)):
+        return False, "lengths are taken before the payload is written"
+    return True, None
 
 
 def find_decode(ctx):
